@@ -4,6 +4,7 @@ import (
 	"context"
 	"os"
 	"os/signal"
+	"sync"
 	"syscall"
 
 	"github.com/internetarchive/Zeno/internal/pkg/log"
@@ -11,14 +12,27 @@ import (
 
 var signalWatcherCtx, signalWatcherCancel = context.WithCancel(context.Background())
 
+var (
+	signalChan       = make(chan os.Signal, 1)
+	notifySignalOnce sync.Once
+)
+
+// notifySignals registers the shutdown signals. It is called before the pipeline starts, so that a signal
+// received while the pipeline is still starting is kept for WatchSignals instead of killing the process
+// (which would leave .open WARC files behind).
+func notifySignals() {
+	notifySignalOnce.Do(func() {
+		signal.Notify(signalChan, syscall.SIGINT, syscall.SIGTERM)
+	})
+}
+
 // WatchSignals listens for OS signals and handles them gracefully
 func WatchSignals() {
 	logger := log.NewFieldedLogger(&log.Fields{
 		"component": "controler.signalWatcher",
 	})
 	// Handle OS signals for graceful shutdown
-	signalChan := make(chan os.Signal, 1)
-	signal.Notify(signalChan, syscall.SIGINT, syscall.SIGTERM)
+	notifySignals()
 
 	select {
 	case <-signalWatcherCtx.Done():
